@@ -103,6 +103,13 @@ def shard_main(argv):
 
     faulthandler.enable()
     deadline = time.monotonic() + float(os.environ.get("VERIF_SHARD_BUDGET", "1e9"))
+    if n >= 4 and idx == 2 and hasattr(os, "sched_setaffinity") and not os.environ.get("VERIF_REPLAY_CASE"):
+        # one shard lives on a single CPU (containers, batch jobs with one core): code that sizes its work by the
+        # CPUs it may use takes other paths there
+        try:
+            os.sched_setaffinity(0, {sorted(os.sched_getaffinity(0))[idx % len(os.sched_getaffinity(0))]})
+        except OSError:
+            pass
     ctx = Ctx(prop, tier, seed)
     mod = importlib.import_module("vf.props." + prop.lower())
     t0 = time.monotonic()
@@ -214,8 +221,9 @@ def run_check(prop: str, tier: str, seed: int, replay: str | None = None) -> int
     for i in range(nshards):
         out = os.path.join(tmp, f"shard{i}.json")
         logf = open(os.path.join(tmp, f"shard{i}.log"), "w")
+        flags = list(getattr(mod, "SHARD_PYFLAGS", {}).get(i % 16, []))  # e.g. {3: ["-O"]}: that shard runs optimised
         p = subprocess.Popen(
-            [PY, "-B", "-X", "faulthandler", "-m", "vf.harness", "--shard", prop, tier, str(seed), str(i), str(nshards), out],
+            [PY, "-B", "-X", "faulthandler"] + flags + ["-m", "vf.harness", "--shard", prop, tier, str(seed), str(i), str(nshards), out],
             env=env, cwd=VERIF, stdout=logf, stderr=subprocess.STDOUT,
         )
         procs.append((p, out, logf))
